@@ -107,21 +107,21 @@ def typeRules (disbandFirst : Bool) (cfg : Cfg) (st : Store) (id : Bytes) (ty : 
     terminal rules. -/
 def allRules (disbandFirst : Bool) (cfg : Cfg) (st : Store) (cmd : Cmd) (id : Bytes) : List Rule :=
   if !cfg.hasPerm then []
-  else if cfg.isSystem cmd.from then terminalRules st id cmd.chanType
-  else senderRules st cmd.from ++
+  else if cfg.isSystem cmd.sender then terminalRules st id cmd.chanType
+  else senderRules st cmd.sender ++
     (if cfg.isSystemDevice cmd then terminalRules st id cmd.chanType
-     else typeRules disbandFirst cfg st id cmd.chanType cmd.from)
+     else typeRules disbandFirst cfg st id cmd.chanType cmd.sender)
 
 /-- permission channel id of a command: `none` = NormalizePersonChannel failed;
     `skip` = permission-free (request scoped) -/
 inductive Prep | free | invalid | id (id : Bytes) (wasCmd : Bool)
 
 def prep (cmd : Cmd) : Prep :=
-  if cmd.requestScoped || (cmd.scoped > 0 && cmd.chanId.isEmpty) then .free
+  if cmd.requestScoped || (cmd.scopedN > 0 && cmd.chanId.isEmpty) then .free
   else
     let src := fromCmd cmd.chanId
     if cmd.chanType = tPerson ∧ cmd.normalize then
-      match normalizePerson cmd.from src.1 with
+      match normalizePerson cmd.sender src.1 with
       | none => .invalid
       | some id2 => .id id2 src.2
     else .id src.1 src.2
